@@ -102,7 +102,7 @@ static void checkTextBlock(int opc, const std::vector<int32_t> &vals, int spelli
 }
 
 int main(int argc, char **argv) {
-  ctx = parse_args("C04", argc, argv, 120, 1500);
+  ctx = parse_args("C04", argc, argv, 300, 1500);
   Report rep; rep.ctx = ctx;
   if (!ctx.replayPath.empty()) {
     JV v; if (!jparse(slurp(ctx.replayPath), v)) harness_fail("cannot parse replay");
